@@ -137,12 +137,32 @@ def rule1(ctx, prog, flows, cub, full, basic):
                     got.append(sorted(ps))
                 ok = got == [[o] for o in OPTS]
                 ctx.require(ok, "R-C08-1", "args|" + b.short, "can_use_basic(..) in %s receives (target, cutoff, first_only, with_paths) of %s" % (b.short.split("::", 3)[-1], root.short.split("::")[-1]), "can_use_basic(..) in %s receives %s instead of its caller's (target, cutoff, first_only, with_paths)" % (b.short, got), loc_str(t.span))
+            def _resolved(atoms_):
+                """a guard hoisted out of a closure (`let use_basic = can_use_basic(..); .. move |i| if use_basic {..}`) is
+                tested inside through the captured boolean: put the definition it has in the enclosing function back"""
+                out_ = []
+                for (te_, v_, a_) in atoms_:
+                    if isinstance(te_, tuple) and te_[0] == "place" and "." not in te_[1] and b.kind == "closure" and te_[1] in b.upvar_names():
+                        pb_ = prog.bodies[b.item["parent"]]
+                        from engines import value_of_named as _von
+
+                        vv_ = _von(flows.of(pb_), te_[1])
+                        if vv_ is not None:
+                            vv_ = panic.norm(vv_)
+                            neg_ = False
+                            while isinstance(vv_, tuple) and vv_[0] == "unop" and vv_[1] == "Not":
+                                neg_ = not neg_
+                                vv_ = vv_[2]
+                            te_, v_ = vv_, (v_ if not neg_ else (not v_ if isinstance(v_, bool) else v_))
+                    out_.append((te_, v_, a_))
+                return out_
+
             if tp == basic.path:
-                atoms = controlling_atoms(f, t.bb)
+                atoms = _resolved(controlling_atoms(f, t.bb))
                 ok = any(isinstance(te, tuple) and te[0] == "call" and te[1].endswith("dijkstra::can_use_basic") and v is True for (te, v, a) in atoms)
                 ctx.require(ok, "R-C08-1", "guarded|" + b.short, "dijkstra_basic in %s runs only on the true edge of can_use_basic(..)" % b.short.split("::", 3)[-1], "dijkstra_basic is called in %s without a can_use_basic(..) == true guard" % b.short, loc_str(t.span))
             if tp == full.path:
-                atoms = controlling_atoms(f, t.bb)
+                atoms = _resolved(controlling_atoms(f, t.bb))
                 ok = any(isinstance(te, tuple) and te[0] == "call" and te[1].endswith("dijkstra::can_use_basic") and v is False for (te, v, a) in atoms)
                 ctx.require(ok, "R-C08-1", "guarded-full|" + b.short, "the full kernel in %s runs on the false edge of can_use_basic(..)" % b.short.split("::", 3)[-1], "the full kernel call in %s is not the alternative of can_use_basic(..)" % b.short, loc_str(t.span))
     ctx.floor("R-C08-1", "can_use_basic_call_sites", n_sites, 1)
